@@ -16,6 +16,8 @@ for d in sorted(glob.glob("seeded/*/")):
     needs = " ".join(str(meta.get("needs_to_manifest", "")).split())[:150]
     det = res.get("checks_with_patch", {})
     cells = []
+    if res.get("patch_applies") is False:
+        cells.append("patch no longer applies to /repo's HEAD (context rewritten by a later `fix:` commit); last successful evaluation in history.txt")
     for p, v in det.items():
         if v["violations"] == 0:
             cells.append("%s: **missed**" % p)
